@@ -299,8 +299,70 @@ _defresp = Site('supervisor/xmlrpc.py', 'DeferredXMLRPCResponse.getresponse', 'd
                 {'body': ('body', 'lean:List Char')}, want={'defResp_a1', 'defResp_c0_0'}, calls=('self.request.push',))
 _defresp.tr_class = ResponseTr
 
+class PyStrTr(Tr):
+    """expressions over Python 3 str/bytes values, as `Except String Sv.Rpc.PyStr` terms (error = the exception raised):
+        <variable typed pystr>                    -> Except.ok v
+        as_string(<e>) / as_bytes(<e>)            -> <e> >>= Sv.Rpc.asString / asBytes          (supervisor.compat)
+        <e>.decode() / .decode('utf-8')           -> <e> >>= Sv.Rpc.pyDecode
+        b''.join(<list typed pylist>)             -> Sv.Rpc.joinBytes l          ''.join(...) -> Sv.Rpc.joinText l
+        <e1> + <e2>                               -> Sv.Rpc.pyConcat
+       so that WHERE the decode sits relative to the join is part of the generated definition."""
+    T = 'lean:Except String Sv.Rpc.PyStr'
+
+    def pexpr(self, e, depth=0):
+        src = ast.unparse(e)
+        if src in self.site.vars and self.site.vars[src][1] == 'pystr':
+            return '(Except.ok %s)' % self.site.vars[src][0]
+        if isinstance(e, ast.Name) and e.id in self.locals and depth < 8:
+            return self.pexpr(self.locals[e.id], depth + 1)
+        if isinstance(e, ast.Call) and isinstance(e.func, ast.Name) and e.func.id in ('as_string', 'as_bytes') and len(e.args) == 1 and not e.keywords:
+            return '(Except.bind %s Sv.Rpc.%s)' % (self.pexpr(e.args[0], depth), 'asString' if e.func.id == 'as_string' else 'asBytes')
+        if isinstance(e, ast.Call) and isinstance(e.func, ast.Attribute) and e.func.attr == 'decode' and not e.keywords and (
+                not e.args or (len(e.args) == 1 and isinstance(e.args[0], ast.Constant) and str(e.args[0].value).lower().replace('-', '') == 'utf8')):
+            return '(Except.bind %s Sv.Rpc.pyDecode)' % self.pexpr(e.func.value, depth)
+        if isinstance(e, ast.Call) and isinstance(e.func, ast.Attribute) and e.func.attr == 'join' and len(e.args) == 1 and not e.keywords \
+                and isinstance(e.func.value, ast.Constant) and e.func.value.value in (b'', ''):
+            arg = ast.unparse(e.args[0])
+            if arg in self.site.vars and self.site.vars[arg][1] == 'pylist':
+                return '(Sv.Rpc.%s %s)' % ('joinBytes' if e.func.value.value == b'' else 'joinText', self.site.vars[arg][0])
+        if isinstance(e, ast.BinOp) and isinstance(e.op, ast.Add):
+            return '(Except.bind %s fun x => Except.bind %s fun y => Sv.Rpc.pyConcat x y)' % (self.pexpr(e.left, depth), self.pexpr(e.right, depth))
+        from extract import Untranslatable
+        raise Untranslatable('str/bytes expression ' + src)
+
+    def typ(self, e):
+        try:
+            self.pexpr(e)
+            return self.T
+        except Exception:
+            return Tr.typ(self, e)
+
+    def expr(self, e):
+        try:
+            return self.pexpr(e)
+        except Exception:
+            return Tr.expr(self, e)
+
+
+# the request body: medusa's collector keeps what the socket delivers (`self.data.append(<kept>)`, once per chunk) and, when
+# Content-Length bytes have arrived, hands `self.handler.continue_request(<text>, request)` one text
+_colldata = Site('supervisor/medusa/xmlrpc_handler.py', 'collector.collect_incoming_data', 'collData', '(data : Sv.Rpc.PyStr)',
+                 {'data': ('data', 'pystr')}, want={'collData_c0_0'}, calls=('self.data.append',))
+_colldata.tr_class = PyStrTr
+_collfound = Site('supervisor/medusa/xmlrpc_handler.py', 'collector.found_terminator', 'collFound', '(chunks : List Sv.Rpc.PyStr)',
+                  {'self.data': ('chunks', 'pylist')}, want={'collFound_c1_0'}, calls=('self.handler.continue_request', 'self.request.channel.set_terminator'))
+_collfound.tr_class = PyStrTr
+# the request header: the channel accumulates `self.in_buffer = <kept>` per chunk and the deferring channel cracks
+# `header = <text>` when the blank line has arrived
+_chandata = Site('supervisor/medusa/http_server.py', 'http_channel.collect_incoming_data', 'chanData', '(buf data : Sv.Rpc.PyStr)',
+                 {'self.in_buffer': ('buf', 'pystr'), 'data': ('data', 'pystr')}, want={'chanData_a0'})
+_chandata.tr_class = PyStrTr
+_chanfound = Site('supervisor/http.py', 'deferring_http_channel.found_terminator', 'chanFound', '(buf : Sv.Rpc.PyStr)',
+                  {'self.in_buffer': ('buf', 'pystr')}, want={'chanFound_a0'})
+_chanfound.tr_class = PyStrTr
+
 SITES = [
-    _traverse, _immediate, _defmore, _defresp,
+    _traverse, _immediate, _defmore, _defresp, _colldata, _collfound, _chandata, _chanfound,
     # g0: isinstance(mood, int) and mood < SupervisorStates.RUNNING
     Site('supervisor/rpcinterface.py', 'SupervisorNamespaceRPCInterface._update', 'update', '(moodIsInt : Bool) (mood : Int)',
          {'isinstance(self.supervisord.options.mood, int)': ('moodIsInt', 'bool'), 'self.supervisord.options.mood': ('mood', 'int')},
